@@ -59,20 +59,24 @@ def main():
     res["confirmed"] = confirmed
     # ---- our checks against it
     checks = {}
-    rc, out = sh("git status --porcelain", cwd="/repo")
-    if out.strip():
-        print("/repo not clean:", out); sys.exit(1)
-    sh(f"git apply {patch}", cwd="/repo")
-    try:
-        for c in [pid] + extra:
-            rc, out = sh(f"timeout 1500 ./check {c} --tier quick 2>&1", cwd="/verif")
-            viol = [l for l in out.splitlines() if l.startswith("VIOLATION")]
-            classes = [l.strip() for l in out.splitlines() if l.strip().startswith("class=")]
-            checks[c] = {"exit": rc, "violation_lines": len(viol), "first": (classes[0][:400] if classes else "")}
-    finally:
-        sh("git checkout -- .", cwd="/repo")
+    if os.environ.get("CONFIRM_ONLY"):
+        # the checks are run afterwards by tools/rerun_seeds_parallel.py (scratch lanes, /repo untouched)
+        checks = {c: {} for c in [pid] + extra}
+    else:
+        rc, out = sh("git status --porcelain", cwd="/repo")
+        if out.strip():
+            print("/repo not clean:", out); sys.exit(1)
+        sh(f"git apply {patch}", cwd="/repo")
+        try:
+            for c in [pid] + extra:
+                rc, out = sh(f"timeout 1500 ./check {c} --tier quick 2>&1", cwd="/verif")
+                viol = [l for l in out.splitlines() if l.startswith("VIOLATION")]
+                classes = [l.strip() for l in out.splitlines() if l.strip().startswith("class=")]
+                checks[c] = {"exit": rc, "violation_lines": len(viol), "first": (classes[0][:400] if classes else "")}
+        finally:
+            sh("git checkout -- .", cwd="/repo")
     res["checks"] = checks
-    res["detected_by_own_property_check"] = checks[pid]["exit"] == 1
+    res["detected_by_own_property_check"] = checks[pid].get("exit") == 1
     dst = f"/verif/seeded/{pid}-{int(k) + int(os.environ.get('SEED_OFFSET', '0'))}"
     if os.environ.get('SEED_NAME'):
         dst = f"/verif/seeded/{os.environ['SEED_NAME']}"
